@@ -34,8 +34,8 @@ try:
         r = subprocess.run(["/verif/check", p, "--tier", a.tier], env=env, capture_output=True, text=True)
         lines = [l for l in r.stdout.splitlines() if l.startswith(("VIOLATION", "violation:", "KNOWN"))][:3]
         print("%s rc=%d %s" % (p, r.returncode, " | ".join(l[:230] for l in lines)))
-        if r.returncode == 2:
-            print(r.stderr[-1500:])
+        if r.returncode == 2 or (r.returncode == 1 and not any(l.startswith("VIOLATION property=") for l in r.stdout.splitlines())):
+            print("HARNESS FAULT (not a detection):", r.stderr[-1500:])
 finally:
     shutil.rmtree(d, ignore_errors=True)
     subprocess.call(["git", "-C", "/verif", "checkout", "--", "evidence"], stderr=subprocess.DEVNULL)
